@@ -29,6 +29,8 @@ import (
 	"fmt"
 	"io"
 	"net"
+	"os"
+	"path/filepath"
 	"strconv"
 	"strings"
 	"sync"
@@ -737,6 +739,8 @@ func runCase(line string) (string, string) {
 			return "bad-op", ""
 		}
 		return runFwd(events)
+	case len(f) == 5 && f[0] == "sock" && (f[1] == "unix" || f[1] == "tcp"):
+		return runSock(f[1], f[2], unhex(f[3]), unhex(f[4]))
 	}
 	return "bad-op", ""
 }
@@ -805,9 +809,35 @@ func main() {
 			}
 			return
 		}
+		sockDir = os.Getenv("VERIF_OUT")
+		if sockDir == "" {
+			sockDir = c.Dir
+		}
+		sockDir, _ = filepath.Abs(filepath.Join(sockDir, "c33-sockets"))
+		os.RemoveAll(sockDir)
+		os.MkdirAll(sockDir, 0o700)
+		defer os.RemoveAll(sockDir)
+		// 0. Real sockets (unix-domain and TCP loopback): timing-independent scenarios.
+		for i := 0; i < c.Size(600, 6000); i++ {
+			size := func() int {
+				switch c.R.Intn(6) {
+				case 0:
+					return 0
+				case 1:
+					return 1 + c.R.Intn(4)
+				case 2:
+					return 30000 + c.R.Intn(70000) // larger than io.Copy's buffer
+				}
+				return 1 + c.R.Intn(300)
+			}
+			kind := c.R.Pick("unix", "tcp")
+			mode := c.R.Pick("ab", "ba", "cancel")
+			emit(fmt.Sprintf("sock %s %s %s %s", kind, mode, hx.Hex(c.R.Bytes(size(), 0)), hx.Hex(c.R.Bytes(size(), 0))))
+			c.Count("sock-" + kind + "-" + mode)
+		}
 		// 1. ForwardAndClose, exhaustive: all scripts up to length L over a small alphabet.
 		alphabet := []string{"r0:a1a2:2:0", "r1:b1:1:0", "r0:c1c2c3:1:0", "r1:d1d2:2:1", "r1:d3d4:0:1", "e0", "e1", "x0", "x1", "c"}
-		L := c.Size(3, 5)
+		L := c.Size(3, 4)
 		var rec func(prefix []string, depth int)
 		rec = func(prefix []string, depth int) {
 			body := "-"
@@ -825,7 +855,7 @@ func main() {
 		}
 		rec(nil, L)
 		// 2. ForwardAndClose, random.
-		for i := 0; i < c.Size(5000, 300000); i++ {
+		for i := 0; i < c.Size(5000, 100000); i++ {
 			g := &gen{r: c.R}
 			faulty := c.R.Chance(1, 2)
 			n := c.R.Intn(14)
@@ -851,7 +881,7 @@ func main() {
 			emit(fmt.Sprintf("fac %d %s", c.R.Intn(2), body))
 		}
 		// 3. The forwarding loop: many concurrent connections.
-		for i := 0; i < c.Size(4000, 200000); i++ {
+		for i := 0; i < c.Size(4000, 60000); i++ {
 			g := &gen{r: c.R}
 			faulty := c.R.Chance(2, 3)
 			n := c.R.Intn(40)
